@@ -27,7 +27,93 @@ def plan(tier, seed):
     from hv import realwork
     # the same fixed cases in processes with different PYTHONHASHSEED; compared in finalize()
     sp += [{'kind': 'hashseed', 'hashseed': hs, 'n': 4 if tier == 'quick' else 40} for hs in HASHSEEDS]
+    sp += [{'kind': 'cli', 'year': y, 'n': 3 if tier == 'quick' else 60} for y in (2021, 2022, 2023)]
     return sp + realwork.shards('C05', tier)
+
+
+def run_cli(spec, tier, seed):
+    """The command line takes the forms as repeated --form options and the inputs as
+    a file: the same file and the same *set* of forms, given in every order (and with
+    the file's sections written in another order), must print the same verdict and the
+    same diagnostics and write the same solution."""
+    import os
+    import re
+    import tempfile
+    import configparser
+    import shutil
+    from hv import scen, cli
+    from hv.monitors.c20 import write_ini
+    res = Result()
+    year = spec['year']
+    rng = rng_for('C05cli', seed, spec)
+    tmp = tempfile.mkdtemp(prefix='hv_c05_')
+
+    def report(stdout):
+        verdict = 'solved' if 'Successfully solved!' in stdout else 'failed' if 'Failed to solve' in stdout else 'none'
+        return verdict, frozenset(l.strip() for l in stdout.splitlines() if l.strip() and not l.startswith('Solver results written to'))
+
+    def solution(path):
+        if not os.path.exists(path):
+            return None
+        cp = configparser.ConfigParser()
+        cp.read(path)
+        return {sec: dict(cp.items(sec, raw=True)) for sec in cp.sections()}
+    try:
+        for k in range(spec['n']):
+            fam = rng.choice(['F8', 'F2', 'F5', 'F9', 'F8'])
+            p = scen.Persona(year, fam, f'c05cli:{seed}:{k}')
+            p.nc = True
+            scen.solve_persona(p)
+            forms = list(p.forms())
+            if len(forms) < 2:
+                forms = forms + ['1040_s1'] if '1040_s1' not in forms else forms
+            ans = dict(p.answers)
+            keys = sorted(ans)
+            variants = [('full', ans)]
+            for f in forms:                      # everything one of the requested forms needs of its own is missing
+                own = [q for q in keys if q.split('.')[0] == f]
+                if own:
+                    variants.append((f'missing:{f}', {q: v for q, v in ans.items() if q not in own[:6]}))
+            drop = rng.sample(keys, min(len(keys), 3))
+            variants.append(('missing:random', {q: v for q, v in ans.items() if q not in drop}))
+            for name, amap in variants:
+                outcomes = []
+                orders = [forms, list(reversed(forms))]
+                if len(forms) > 2:
+                    orders.append(forms[1:] + forms[:1])
+                for oi, order in enumerate(orders):
+                    path = os.path.join(tmp, f'in{oi}.ini')
+                    items = sorted(amap.items()) if oi == 0 else sorted(amap.items(), reverse=True)
+                    write_ini(path, dict(items))
+                    sol = os.path.join(tmp, f'sol{oi}.ini')
+                    if os.path.exists(sol):
+                        os.remove(sol)
+                    args = ['solve', path, '--year', str(year), '--solution', sol]
+                    for f in order:
+                        args += ['--form', f]
+                    r = cli.run_cli(args)
+                    res.evaluations += 1
+                    res.count('cli_runs')
+                    v, lines = report(r.stdout)
+                    res.count('cli_' + ('abort' if r.exc is not None else v))
+                    outcomes.append((order, type(r.exc).__name__ if r.exc is not None else None, v, lines, solution(sol)))
+                base = outcomes[0]
+                res.distinct.add(f'cli|{year}|{fam}|{name.split(":")[0]}|{base[2]}|{len(forms)}')
+                for o in outcomes[1:]:
+                    res.count('cli_order_comparisons')
+                    rp = {'engine': 'cli', 'persona': p.describe(), 'variant': name, 'orders': [base[0], o[0]], 'shard': spec}
+                    if o[1] != base[1]:
+                        res.violation('C05|cli|form-order|abort', f'{year} {fam} [{name}]: --form {" ".join(base[0])} ended with {base[1]}, --form {" ".join(o[0])} with {o[1]}', rp)
+                    elif o[2] != base[2]:
+                        res.violation('C05|cli|form-order|verdict', f'{year} {fam} [{name}]: --form {" ".join(base[0])} printed {base[2]!r}, --form {" ".join(o[0])} printed {o[2]!r}', rp)
+                    elif o[3] != base[3]:
+                        d = sorted(o[3] ^ base[3])[:3]
+                        res.violation('C05|cli|form-order|diagnostics', f'{year} {fam} [{name}]: the printed diagnostics depend on the order of the --form options, e.g. {d}', rp)
+                    elif o[4] != base[4]:
+                        res.violation('C05|cli|form-order|solution', f'{year} {fam} [{name}]: the written solution depends on the order of the --form options: {_mapdiff(base[4] or {}, o[4] or {})}', rp)
+    finally:
+        shutil.rmtree(tmp, ignore_errors=True)
+    return res
 
 
 def run_hashseed(spec, tier, seed):
@@ -132,6 +218,8 @@ def rename_lines(prog, rng):
 def run_shard(spec, tier, seed):
     if spec['kind'] == 'hashseed':
         return run_hashseed(spec, tier, seed)
+    if spec['kind'] == 'cli':
+        return run_cli(spec, tier, seed)
     if spec['kind'] == 'real':
         from hv import realwork
         return realwork.run_shard('C05', spec, tier, seed)
@@ -190,6 +278,16 @@ def run_shard(spec, tier, seed):
     return res
 
 
+def _mapdiff(a, b):
+    out = []
+    for sec in sorted(set(a) | set(b)):
+        x, y = a.get(sec, {}), b.get(sec, {})
+        for k in sorted(set(x) | set(y)):
+            if x.get(k) != y.get(k):
+                out.append(f'{sec}.{k}: {x.get(k)!r} vs {y.get(k)!r}')
+    return out[:3]
+
+
 def _diff(a, b):
     if a[0] != b[0]:
         return f'verdict {a[0]} vs {b[0]}'
@@ -212,6 +310,9 @@ def finalize(res, tier):
                     res.violation('C05|hashseed', f'{label}: outcome or attempt order differs between PYTHONHASHSEED={base_hs} and {hs}', {'label': label, 'hashseeds': [base_hs, hs]})
     else:
         res.inconclusive.append('hash-seed variants did not run')
+    c = res.counters
+    if c.get('cli_order_comparisons', 0) < 20 or c.get('cli_failed', 0) < 5 or c.get('cli_solved', 0) < 5:
+        res.inconclusive.append(f'CLI form-order layer: too few comparisons / verdict kinds ({c.get("cli_order_comparisons", 0)}, failed {c.get("cli_failed", 0)}, solved {c.get("cli_solved", 0)})')
     if res.counters.get('cases_with_distinct_orders', 0) < 100:
         res.inconclusive.append('fewer than 100 cases in which the variants produced distinct attempt orders')
     return {'distinct_attempt_sequences': len(res.distinct)}
